@@ -251,6 +251,19 @@ def handle (toks : List String) : String :=
           let kcarr := tabMat fun i j => chop tol big (K0 i j)
           let Kc : Mat Q := arrMat kcarr
           pure (showRats ([nu] ++ matToList Kc ++ [kCoeff Kc b, preln pi Kc b]))
+      -- solve_volterra_dislocation / acceptance of the isotropic solver:
+      -- `dispatch tol strohOk isoNormal b(3) n(3)` -> `1` (Stroh) | `2` (isotropic) | err:value, then the in-plane flag
+      | "dispatch" => done do
+          let (tol, r) ← take1 xs
+          let (sOk, r) ← takeBool r
+          let (isoN, r) ← takeBool r
+          let (b, r) ← takeVec r
+          let (n, _) ← takeVec r
+          let inPl := isoInPlaneOk tol b n
+          match dispatch sOk isoN inPl with
+          | some .stroh => pure (showRats [1, if inPl then 1 else 0])
+          | some .iso => pure (showRats [2, if inPl then 1 else 0])
+          | none => pure (err "value")
       | _ => err "op"
 
 end C12Drv
